@@ -319,6 +319,41 @@ def doPElemOp (l : Line) : Option String := do
     let dumps (bs : List Nat) := "|".intercalate (bs.map dump)
     some s!"ok inplace={if r == xs then 1 else 0} res={dumps r} x={dumps xs} y={dumps ys}"
 
+/-- `tover f=<copy|conj|setreal|setimag> real=0|1 out=<none|self|other> n=LEN x=… o=… v=…` :
+the tensor-element overrides (`tcopy`, `tconj`, `setReal`, `setImag`): self = buffer 0, the
+`out` element = buffer 1 (or 0 for `out is self`), fresh = buffer 2 (junk 77). Answers the
+buffer of the returned element and all three buffers. -/
+def doTOver (l : Line) : Option String := do
+  let f ← l.get? "f"
+  let isReal ← l.bool? "real"
+  let outS ← l.get? "out"
+  let n ← l.nat? "n"
+  let x ← l.crats? "x"
+  let o := (l.crats? "o").getD (List.replicate n ⟨55, 0⟩)
+  let v := ((l.crats? "v").getD []).toArray
+  let out ← match outS with
+    | "none" => some none | "self" => some (some 0) | "other" => some (some 1) | _ => none
+  let m := memOf [x, o, List.replicate n ⟨77, 0⟩]
+  let vv : Vec CRat := fun i => v.getD i 0
+  let r ← match f with
+    | "copy" => some (some (tcopy 0 2 m))
+    | "conj" => some (some (tconj CRat.conj isReal 0 out 2 m))
+    | "setreal" => some (some (setReal isReal 0 vv m, 0))
+    | "setimag" => some ((setImag isReal 0 vv m).map (·, 0))
+    | _ => none
+  match r with
+  | none => some "raises"
+  | some (m', r) =>
+    let dump (b : Nat) := showCList ((List.range n).map (m' b))
+    some s!"ok r={r} res={dump r} x={dump 0} o={dump 1}"
+
+/-- `ipowroute tensor=0|1 p=<rational>` : where `x **= p` goes (`ipowRoute`). -/
+def doIpowRoute (l : Line) : Option String := do
+  let t ← l.bool? "tensor"
+  let p ← l.rat? "p"
+  some (match ipowRoute t p with
+    | .generic k => s!"generic:{k}" | .npPower => "nppower" | .raises => "raises")
+
 def handle (l : Line) : Option String :=
   match l.op with
   | "lincomb" => doLincomb l
@@ -331,6 +366,8 @@ def handle (l : Line) : Option String :=
   | "bcasto" => doBcastOut l
   | "pmuldiv" => doPMulDiv l
   | "pelemop" => doPElemOp l
+  | "tover" => doTOver l
+  | "ipowroute" => doIpowRoute l
   | "leaves" => doLeaves l
   | _ => none
 
